@@ -142,6 +142,7 @@ var zzSuffix = map[string]string{}
 // while it runs is killed.
 func zzProbe(ctx context.Context, opts *execext.RunCommandOptions) error {
 	if strings.HasPrefix(opts.Command, "pre ") { // a precondition command
+		zzPreDir = opts.Dir
 		zz.Emit("G", strings.TrimPrefix(opts.Command, "pre "), 0) // evaluating a guard takes time: a scheduling point
 		if err := ctx.Err(); err != nil {
 			return err
@@ -270,6 +271,9 @@ type zzRunOpts struct {
 func zzQuietLogger() *logger.Logger { return &logger.Logger{Stdout: io.Discard, Stderr: io.Discard} }
 
 var zzPreFail bool
+
+// zzPreDir: the directory the last precondition command was run in
+var zzPreDir string
 
 func zzPreText() string {
 	if zz.Native() {
